@@ -75,7 +75,7 @@ fn gen_source(rng: &mut Rng, shared: &[(bool, bool)], tagbase: usize, disagree: 
                     description: Some(if disagree && rng.chance(1, 4) { "other words".to_owned() } else { format!("about {c}") }),
                     description_url: None,
                     implies,
-                    aggregated_from: if rng.chance(1, 5) { vec![gen::sp("https://older.example/a.toml".to_owned())] } else { vec![] },
+                    aggregated_from: if rng.chance(1, 4) { vec![gen::sp(if rng.chance(1, 2) { "https://older.example/a.toml".to_owned() } else { src_url((tagbase / 100 + 1 + rng.below(2)) % 3) })] } else { vec![] },
                 },
             );
         }
@@ -99,7 +99,7 @@ fn gen_source(rng: &mut Rng, shared: &[(bool, bool)], tagbase: usize, disagree: 
                         kind,
                         importable: !rng.chance(1, 4),
                         notes: Some(format!("t{tag}")),
-                        aggregated_from: if rng.chance(1, 5) { vec![gen::sp("https://older.example/a.toml".to_owned())] } else { vec![] },
+                        aggregated_from: if rng.chance(1, 4) { vec![gen::sp(if rng.chance(1, 2) { "https://older.example/a.toml".to_owned() } else { src_url((tagbase / 100 + 1 + rng.below(2)) % 3) })] } else { vec![] },
                         is_fresh_import: false,
                     }
                 })
